@@ -306,7 +306,13 @@ def check_c02(fname: str, mask: int, args: tuple) -> bool:
     reported = {ln for ln in reported_all if lo < ln <= hi}
     executed = {ln for (_n, _f, ln) in truth.lines if lo < ln <= hi}
     # helper classes used by corpus functions (Acc) live outside the range: compare them too
-    return reported == executed
+    if reported != executed:
+        return False
+    # the executor runs test case after test case on one tracer (init_trace() in between): the same call once more
+    # must report the same lines (nothing may be carried over from the previous execution)
+    _k2, _v2, trace2, _inst = run_instrumented(mask, fname, args)
+    again = {ln for ln in inst.sp.lineids_to_linenos(trace2.covered_line_ids) if lo < ln <= hi}
+    return again == executed
 
 
 _POOLS: dict[int, object] = {}
